@@ -1,10 +1,15 @@
 package harness
 
 import (
+	"errors"
 	"fmt"
 
 	sdk "github.com/cosmos/cosmos-sdk/types"
 )
+
+// ErrEnvRefused: the chain itself refused an environment action (a governance message rejected by its
+// validation or handler). In a replay that means the trace's precondition no longer exists.
+var ErrEnvRefused = errors.New("environment action refused by the chain")
 
 // ApplyEnv applies an environment action between two blocks on the uncached
 // working state (it is committed with the next block).
@@ -18,7 +23,10 @@ func ApplyEnv(w *World, e EnvAction) error {
 		if err := w.App.AppCodec().UnmarshalInterfaceJSON([]byte(e.Args["msg"]), &msg); err != nil {
 			return fmt.Errorf("decode gov msg: %w", err)
 		}
-		return w.ExecGov(msg)
+		if err := w.ExecGov(msg); err != nil {
+			return fmt.Errorf("%w: %v", ErrEnvRefused, err)
+		}
+		return nil
 	case "noop":
 		return nil
 	}
